@@ -276,7 +276,7 @@ func runMutants(repo string, ms []mutant, cacheDir string) []mutantResult {
 	}
 	out := make([]mutantResult, len(ms))
 	var wg sync.WaitGroup
-	sem := make(chan struct{}, 4)
+	sem := make(chan struct{}, 8)
 	for i := range ms {
 		wg.Add(1)
 		go func(i int) {
